@@ -3,6 +3,7 @@ CONSTANTS
   MaxOps = 4
   Groups = {"mat", "ds"}
   Big = FALSE
+  Focus = ""
   Wide = FALSE
   ShipDsAdd = FALSE
   ShipMatPartial = FALSE
